@@ -252,7 +252,7 @@ def syncshared_program(rnd):
     }
 
 
-def run_once(prog, how, seed, settings, clock, outfile, in_thread=False):
+def run_once(prog, how, seed, settings, clock, outfile, in_thread=False, late=False):
     """One run of the program under the given option settings. in_thread: on a brand-new thread (fresh
     thread-local scheduler / profiler state, no profiler.reset() beforehand), as a worker thread would run it."""
     if in_thread:
@@ -262,7 +262,7 @@ def run_once(prog, how, seed, settings, clock, outfile, in_thread=False):
 
         def target():
             try:
-                box.append(("ok", run_once(prog, how, seed, settings, clock, outfile, in_thread=None)))
+                box.append(("ok", run_once(prog, how, seed, settings, clock, outfile, in_thread=None, late=late)))
             except BaseException as e:  # harness trouble: re-raised on the calling thread
                 box.append(("err", e))
 
@@ -286,10 +286,14 @@ def run_once(prog, how, seed, settings, clock, outfile, in_thread=False):
     if in_thread is False:
         profiler.reset()
     try:
-        for k, v in settings.items():
-            setattr(opts, k, v)
-        if settings.get("DUMP_SCHEDULER_STATE"):
-            opts.SCHEDULER_STATE_DUMP_INTERVAL = 0
+        def apply_settings():
+            for k, v in settings.items():
+                setattr(opts, k, v)
+            if settings.get("DUMP_SCHEDULER_STATE"):
+                opts.SCHEDULER_STATE_DUMP_INTERVAL = 0
+
+        if not late:
+            apply_settings()
         if clock is not None:
             S.utime = clock
         if prog.get("max_stack"):
@@ -302,6 +306,17 @@ def run_once(prog, how, seed, settings, clock, outfile, in_thread=False):
         # what a program can observe also includes who the active task is
         rt.step_probes.append(_active_probe)
         rt.sync_probes.append(_after_sync_probe)
+        if late:
+            # the options are switched on while the computation is under way (at its first scheduler flush): tasks
+            # and items created before that moment complete after it
+            pending = [True]
+
+            def switch(rt_, batch):
+                if pending:
+                    del pending[:]
+                    apply_settings()
+
+            rt.before_probes.append(switch)
         out = rt.run(how)
     finally:
         S.utime = old_utime
@@ -385,13 +400,18 @@ def run_unit(unit, progress):
             if rnd.random() < 0.5:
                 st["KEEP_DEPENDENCIES"] = True
             subs.append(("perf-for-sync-programs", st))
+        if flushed and i % 3 == 0:
+            st = dict(subs[0][1]) if i % 6 == 0 else {k: (True if k in ("COLLECT_PERF_STATS", "KEEP_DEPENDENCIES") or k.startswith("DUMP_") else DEFAULTS[k]) for k in BOOL_OPTIONS}
+            subs.append(("late:" + subs[0][0] if i % 6 == 0 else "late:everything-on", st))
         for label, settings in subs:
             clock = None
             big = False
             if settings.get("COLLECT_PERF_STATS"):
                 big = rnd.random() < 0.6
                 clock = Clock(random.Random(cs ^ 0xC10C), big)
-            rt, out, nbytes, nstats = run_once(prog, how, cs, settings, clock, fd, in_thread=thr)
+            rt, out, nbytes, nstats = run_once(prog, how, cs, settings, clock, fd, in_thread=thr, late=label.startswith("late:"))
+            if label.startswith("late:"):
+                inc("runs_with_options_switched_on_at_the_first_flush")
             res["evaluations"] += 1
             flipped = [k for k in BOOL_OPTIONS if settings[k] != DEFAULTS[k]]
             inc("option_subsets_run")
@@ -422,7 +442,7 @@ def run_unit(unit, progress):
                 res["violations"].append(
                     {
                         "oracle": "computation-fails-only-with-options" if fails else "trace-differs-from-default-options",
-                        "mechanism": classify(flipped, out, out0, rt, clock),
+                        "mechanism": classify(flipped, out, out0, rt, clock) + ("/switched-on-at-the-first-flush" if label.startswith("late:") else ""),
                         "detail": {
                             "options_changed": flipped,
                             "first_difference_at_event": n,
